@@ -385,6 +385,66 @@ def _caller_hack(ctx) -> None:
                    f"call super().{name} (otherwise astimezone's internal addition is routed through add())", m.loc(n))
 
 
+def _zone_resolution(ctx) -> None:
+    """'reports the requested timezone': name/offset -> zone object resolution, incl. the interned fixed offsets."""
+    im, tm = pmod("__init__"), pmod("tz")
+    fn = im.func("timezone")
+    forms = set()
+    for p in cfg.paths(fn):
+        ex = p.exit()
+        if ex[1] == "return":
+            forms.add((p.holds("isinstance(name, int)"), p.holds("name.lower() == 'utc'"), nun(ex[2].value)))
+    want = {(True, None, "fixed_timezone(name)"), (False, True, "UTC"), (False, False, "Timezone(name)")}
+    ctx.ob("ZONE.resolve", "pendulum.timezone", forms == want,
+           f"timezone(name) resolves as {sorted(map(str, forms))}; an int is a fixed offset in seconds, 'utc' (any case) the UTC singleton, "
+           f"anything else a named zone", im.loc(fn))
+    fn = tm.func("fixed_timezone")
+    forms = set()
+    for p in cfg.paths(fn):
+        ex = p.exit()
+        if ex[1] == "return":
+            hit = p.holds("offset in _tz_cache")
+            v = nun(cfg.subst_path(p, ex[2].value, set()))
+            stores = [nun(st) for st in p.stmts() if isinstance(st, ast.Assign) and nun(st.targets[0]).startswith("_tz_cache[")]
+            forms.add((hit, v, tuple(stores)))
+    want = {(True, "_tz_cache[offset]", ()), (False, "FixedTimezone(offset)", ("_tz_cache[offset] = tz",))}
+    ctx.ob("ZONE.cache", "tz.fixed_timezone", forms == want,
+           f"fixed_timezone(offset) behaves as {sorted(map(str, forms))}; the interned zone must be keyed by, built from and stored under the "
+           f"same `offset`", tm.loc(fn))
+    sf = im.func("_safe_timezone")
+    src = nun(sf)
+    ctx.ob("ZONE.resolve", "_safe_timezone/hours", "if isinstance(obj, (int, float)):\n        obj = int(obj * 60 * 60)" in src,
+           "a numeric tz argument is a number of hours: int(obj * 60 * 60) seconds", im.loc(sf))
+    ctx.ob("ZONE.resolve", "_safe_timezone/passthrough", "if isinstance(obj, (Timezone, FixedTimezone)):\n        return obj" in src
+           and src.rstrip().endswith("return timezone(obj)"), "pendulum zones pass through, everything else ends in timezone(obj)", im.loc(sf))
+    ctx.ob("ZONE.resolve", "_safe_timezone/other-kind", "offset = obj.utcoffset(dt)" in src and "obj = int(offset.total_seconds())" in src,
+           "a foreign tzinfo without a name is mapped through its utcoffset(dt) in whole seconds", im.loc(sf))
+    dm = pmod("datetime")
+    acc = {"DateTime.get_offset": None, "DateTime.offset": "self.get_offset()", "DateTime.tz": "self.timezone",
+           "DateTime.timezone_name": None, "DateTime.float_timestamp": "self.timestamp()"}
+    for q, want_s in acc.items():
+        if want_s is None:
+            continue
+        r = core.returns(dm.func(q))
+        ctx.ob("ACCESSOR", q, len(r) == 1 and nun(r[0].value) == want_s, f"returns {[nun(x.value) for x in r]}; expected {want_s}", dm.rel, nontrivial=False)
+    go = dm.func("DateTime.get_offset")
+    forms = {(p.holds("utcoffset is None"), nun(cfg.subst_path(p, p.exit()[2].value, set()))) for p in cfg.paths(go) if p.exit()[1] == "return"}
+    ctx.ob("ACCESSOR", "DateTime.get_offset", forms == {(True, "None"), (False, "int(self.utcoffset().total_seconds())")},
+           f"{sorted(map(str, forms))}; the offset in seconds is int(utcoffset().total_seconds())", dm.loc(go))
+    tzp = dm.func("DateTime.timezone")
+    forms = {(p.holds("isinstance(self.tzinfo, (Timezone, FixedTimezone))"), nun(p.exit()[2].value)) for p in cfg.paths(tzp) if p.exit()[1] == "return"}
+    ctx.ob("ACCESSOR", "DateTime.timezone", forms == {(False, "None"), (True, "self.tzinfo")}, f"{sorted(map(str, forms))}", dm.loc(tzp))
+    tn = dm.func("DateTime.timezone_name")
+    forms = {(p.holds("tz is None"), nun(cfg.subst_path(p, p.exit()[2].value, set()))) for p in cfg.paths(tn) if p.exit()[1] == "return"}
+    ctx.ob("ACCESSOR", "DateTime.timezone_name", forms == {(True, "None"), (False, "self.timezone.name")}, f"{sorted(map(str, forms))}", dm.loc(tn))
+    zm = pmod("tz.timezone")
+    r = core.returns(zm.func("Timezone.name"))
+    ctx.ob("ACCESSOR", "Timezone.name", len(r) == 1 and nun(r[0].value) == "self.key", f"{[nun(x.value) for x in r]}", zm.rel)
+    r = core.returns(zm.func("FixedTimezone.name"))
+    ctx.ob("ACCESSOR", "FixedTimezone.name", len(r) == 1 and nun(r[0].value) == "self._name", f"{[nun(x.value) for x in r]}", zm.rel)
+    ctx.ob("ACCESSOR", "UTC", nun(zm.assign("UTC")) == "Timezone('UTC')", "UTC singleton is Timezone('UTC')", zm.rel)
+
+
 def run(ctx) -> None:
     ctx.explanation = EXPLANATION
     bad = core.check_bases()
@@ -412,6 +472,7 @@ def run(ctx) -> None:
     _int_timestamp(ctx)
     _aware_instant(ctx)
     _caller_hack(ctx)
+    _zone_resolution(ctx)
     ctx.expect_min("FUNNEL.aware", 2)
     ctx.expect_min("RECON.slot", 30)
     ctx.expect_min("TZINFO", 4)
